@@ -34,6 +34,8 @@ Definition sx_op (s : sx) : option op :=
       bind (sx_nat a) (fun a' => bind (sx_list sx_cpd cs) (fun cs' => Some (AddCpds a' cs')))
   | SL [SZ 5%Z; a; xs] =>
       bind (sx_nat a) (fun a' => bind (sx_list sx_nat xs) (fun xs' => Some (RemoveCpds a' xs')))
+  | SL [SZ 9%Z; a; cs] =>
+      bind (sx_nat a) (fun a' => bind (sx_list sx_cpd cs) (fun cs' => Some (RemoveCpdObjs a' cs')))
   | SL [SZ 6%Z; a; xs; ip] =>
       bind (sx_nat a) (fun a' => bind (sx_list sx_nat xs) (fun xs' => bind (sx_bool ip) (fun ip' =>
       Some (Do a' xs' ip'))))
@@ -70,6 +72,18 @@ Fixpoint trace (s : state) (ops : list op) : list sx :=
 Definition run_c15_bn (s : sx) : sx :=
   match sx_list sx_op s with
   | Some ops => sx_ok (SL (trace init ops))
+  | None => bad_request
+  end.
+
+(* same, but only the last step's [out; [model ...]] (the harness calls it once per step) *)
+Fixpoint last_step (s : state) (ops : list op) (acc : sx) : sx :=
+  match ops with
+  | [] => acc
+  | o :: r => let (s', out) := step s o in last_step s' r (SL [of_out out; of_state s'])
+  end.
+Definition run_c15_bn_last (s : sx) : sx :=
+  match sx_list sx_op s with
+  | Some ops => sx_ok (last_step init ops (SL []))
   | None => bad_request
   end.
 
